@@ -344,7 +344,12 @@ func (act *activation) execBlock(b *ssa.BasicBlock, a *alt, edgeOut map[edge][]*
 				act.addRet(x, res)
 				if act.record && act.depth == 0 {
 					// per-return-site view of the entry function (return classes are merged by outcome)
-					act.events = append(act.events, &Event{Key: "return", Kind: "return", Instr: ins, Fn: act.fn, Args: res, Atoms: x.atoms, Result: act.flags(x)})
+					// a returned &T{...} is shown with what it holds
+					shown := make([]term.ID, len(res))
+					for i, r := range res {
+						shown[i] = act.e.snapshot(r, x.cells, 0)
+					}
+					act.events = append(act.events, &Event{Key: "return", Kind: "return", Instr: ins, Fn: act.fn, Args: shown, Atoms: x.atoms, Result: act.flags(x)})
 				}
 			}
 			return
